@@ -177,7 +177,7 @@ func (r *recorder) writeTrace(path string, sc *Script, ncalls int) (int, []strin
 			k := e["k"].(string)
 			switch k {
 			case "ready":
-			case "call", "return", "Quiesce":
+			case "call", "return", "Quiesce", "Hang":
 				for kk, v := range e {
 					m[kk] = v
 				}
